@@ -862,6 +862,9 @@ func C13(r *vf.Run) {
 						start = 0
 					}
 					length := uint32(48 + g.Intn(200))
+					if start+length-1 > 0xFFFFFF {
+						length = 0x1000000 - start // (a range that ends beyond the 24-bit space is outside the statement)
+					}
 					out := make([]byte, length)
 					for i := range out {
 						out[i] = 0xA7
